@@ -441,7 +441,12 @@ class ModelClient:
                 f"Currently {n_reporting_expected_units} reporting, need at least {minimum_reporting_units_max}"
             )
 
-        units_by_count = reporting_units["geographic_unit_fips"].value_counts()
+        # a unit that reports has to be listed once. Its rows are counted in the combined data: among the modelled reporting
+        # units alone a second row goes unnoticed when it is below the threshold (the unit is then counted and predicted)
+        # or when an exclusion rule removes the id, and with it both rows, from the reporting units
+        combined_ids = data.data["geographic_unit_fips"]
+        reporting_ids = combined_ids[data.data["percent_expected_vote"] >= percent_reporting_threshold]
+        units_by_count = combined_ids[combined_ids.isin(reporting_ids)].value_counts()
         duplicate_units = units_by_count[units_by_count > 1].to_dict()
         if len(duplicate_units) > 0:
             raise ModelClientException(f"At least one unit appears twice: {duplicate_units}")
